@@ -324,6 +324,7 @@ func suiteMatch(c *Ctx) error {
 		case "index":
 			want := ro.index
 			want.ID, want.Name, want.Severity = "", "", ""
+			want.IdentifyingFeatures.ControlFlow = nil // control-flow hints are not read by any lookup; not modelled
 			if o != encSig(&want) {
 				diff("C05", "IndexFunction", e.ci, fmt.Sprintf("impl %s model %s", encSig(&want), o), nil)
 			}
@@ -389,6 +390,78 @@ func suiteMatch(c *Ctx) error {
 			if got != want && !nearEx {
 				diff("C08", "jsondb.ScanTopologyExact", e.ci, fmt.Sprintf("impl %s model %s", got, want), nil)
 			}
+		}
+	}
+	return nil
+}
+
+// ---- C19 (similarity half): topology.TopologySimilarity vs Model topoSimilarity + oracles ----
+
+func init() { register("sim", suiteSim) }
+
+func suiteSim(c *Ctx) error {
+	c.Res.Rule = "pairs of topologies from small pools (independent / near copy / exact clone); real TopologySimilarity in both argument orders and on (a,a), compared with the Lean model as exact rationals (|Δ|<=2^-40); oracles: symmetric, in [0,1], exactly 1 on a clone; non-trivial = the pair differs in >=1 and agrees in >=1 profile map; distinct by encoded pair"
+	n := c.N
+	if n == 0 {
+		n = 1500
+	}
+	r := NewRng(c.Seed)
+	type pr struct{ a, b *topologyT }
+	var lines []string
+	var reals []float64
+	var pairs [][2]string
+	seen := map[string]bool{}
+	for i := 0; i < n; i++ {
+		rr := r.Fork()
+		a := genTopo(rr)
+		var b *topologyT
+		switch rr.Intn(4) {
+		case 0:
+			b = genTopo(rr)
+		case 1, 2:
+			b = mutateTopo(rr, a)
+		default:
+			b = cloneTopo(a)
+		}
+		c.Res.Evaluations++
+		sab := topologySim(a, b)
+		sba := topologySim(b, a)
+		saa := topologySim(a, a)
+		ea, eb := encTopo(a), encTopo(b)
+		rp := map[string]interface{}{"a": ea, "b": eb, "sim_ab": sab, "sim_ba": sba, "sim_aa": saa}
+		if sab != sba {
+			c.Violate("C19", "C19/similarity-not-symmetric", fmt.Sprintf("sim(a,b)=%v sim(b,a)=%v", sab, sba), rp)
+		}
+		if math.IsNaN(sab) || sab < 0 || sab > 1 {
+			c.Violate("C19", "C19/similarity-out-of-range", fmt.Sprintf("sim(a,b)=%v", sab), rp)
+		}
+		if saa != 1.0 {
+			c.Violate("C19", "C19/self-similarity-not-1", fmt.Sprintf("sim(a,a)=%v", saa), rp)
+		}
+		if ea == eb && sab != 1.0 {
+			c.Violate("C19", "C19/clone-similarity-not-1", fmt.Sprintf("sim(a,clone a)=%v", sab), rp)
+		}
+		key := ea + "#" + eb
+		if ea != eb && (encMap(a.CallSignatures) == encMap(b.CallSignatures) || encMap(a.BinOpCounts) == encMap(b.BinOpCounts)) && !seen[key] {
+			c.Res.Nontrivial++
+		}
+		seen[key] = true
+		lines = append(lines, "sim\t"+ea+"\t"+eb)
+		reals = append(reals, sab)
+		pairs = append(pairs, [2]string{ea, eb})
+		if i < 3 {
+			c.Sample(rp)
+		}
+	}
+	outs, err := RunModel(c.Model, "match", lines)
+	if err != nil {
+		return err
+	}
+	for i, o := range outs {
+		if !closeRat(reals[i], o) {
+			c.Res.ModelDiffs++
+			c.ViolateNoInput("C19", "C19/model-correspondence:TopologySimilarity", fmt.Sprintf("impl %v model %s", reals[i], o),
+				map[string]interface{}{"broken": "correspondence Sfw.topoSimilarity (theorems C19_sim_*)", "a": pairs[i][0], "b": pairs[i][1]})
 		}
 	}
 	return nil
